@@ -37,10 +37,12 @@ fn report_prune(rep: &mut Report, what: &str, replay: &Value) {
 
 /// differential checks of one matcher on one tree
 fn check_matcher<M: Matcher<SupportLang>>(m: &M, root: &N, desc: &str, class: &str, replay: &Value, rep: &mut Report) -> (usize, bool) {
+  crate::util::trace(&|| replay.to_string());
   let r = guarded(|| {
     let brute: Vec<(Key, N)> = root.dfs().filter_map(|n| m.match_node(n.clone()).map(|_| (key(&n), n))).collect();
     let found: Vec<Key> = root.find_all(m).map(|nm| key(nm.get_node())).collect();
     let brute_keys: Vec<Key> = brute.iter().map(|x| x.0).collect();
+    let brute_set: std::collections::HashSet<Key> = brute_keys.iter().cloned().collect();
     let mut out = vec![];
     if found != brute_keys {
       let kind = if found.len() < brute_keys.len() { "drops" } else if found.len() > brute_keys.len() { "invents" } else { "order-or-identity" };
@@ -52,7 +54,7 @@ fn check_matcher<M: Matcher<SupportLang>>(m: &M, root: &N, desc: &str, class: &s
       .filter(|(_, n)| {
         let mut cur = n.parent();
         while let Some(p) = cur {
-          if brute_keys.contains(&key(&p)) && m.match_node(p.clone()).is_some() {
+          if brute_set.contains(&key(&p)) {
             return false;
           }
           cur = p.parent();
@@ -109,6 +111,7 @@ pub fn load_rules(yamls: &[String]) -> Result<Vec<RuleConfig<SupportLang>>, Stri
 
 /// CombinedScan of a rule set vs each rule alone
 fn check_combined(rules: &[RuleConfig<SupportLang>], lang: SupportLang, src: &str, replay: &Value, rep: &mut Report) -> usize {
+  crate::util::trace(&|| replay.to_string());
   let r = guarded(|| {
     let grep = lang.ast_grep(src);
     let root = grep.root();
@@ -190,6 +193,17 @@ fn gen_rule_doc(h: &rule::Harvest, rng: &mut Rng, depth: usize) -> (R, BTreeMap<
 
 pub fn run_source(lang: SupportLang, fname: &str, src: &str, budget: (usize, usize, usize), rng: &mut Rng, rep: &mut Report) {
   let lname = corpus::lang_name(lang);
+  // work limit (not a verdict): some generated rule / tree combinations are cubic
+  let t0 = std::time::Instant::now();
+  let limit_ms: u128 = std::env::var("VMON_SOURCE_BUDGET_MS").ok().and_then(|s| s.parse().ok()).unwrap_or(6000);
+  macro_rules! over_budget {
+    () => {
+      if t0.elapsed().as_millis() > limit_ms {
+        rep.count("sources_time_capped", 1);
+        return;
+      }
+    };
+  }
   if src.contains("ast-grep-ignore") {
     return;
   }
@@ -212,6 +226,7 @@ pub fn run_source(lang: SupportLang, fname: &str, src: &str, budget: (usize, usi
     let Some(cut) = cut else { continue };
     let Ok(pat) = Pattern::try_new(&cut.pattern, lang) else { continue };
     done += 1;
+    over_budget!();
     for s in ALL_S {
       let p = pat.clone().with_strictness(s.to_impl());
       let replay = json!({"monitor":"c01","case":"pattern","lang":lname,"file":fname,"source":src,"pattern":cut.pattern,"strictness":s.name()});
@@ -257,9 +272,15 @@ pub fn run_source(lang: SupportLang, fname: &str, src: &str, budget: (usize, usi
   if h.kinds.is_empty() {
     return;
   }
+  // relational rules over a node with hundreds of children (flat ERROR nodes) are quartic: work limit
+  if root.dfs().map(|n| n.children().len()).max().unwrap_or(0) > 120 {
+    rep.count("sources_rule_cases_skipped_wide_node", 1);
+    return;
+  }
   // --- rule documents, alone and scanned together
   let mut yamls: Vec<String> = vec![];
   for i in 0..n_rule {
+    over_budget!();
     let (r, utils) = gen_rule_doc(&h, rng, 3);
     let fix = if rng.chance(1, 2) { Some("FIXED") } else { None };
     let y = rule_yaml(&format!("r{i}"), &lname, &r, &utils, fix);
@@ -278,6 +299,7 @@ pub fn run_source(lang: SupportLang, fname: &str, src: &str, budget: (usize, usi
     }
   }
   for _ in 0..n_sets {
+    over_budget!();
     if yamls.is_empty() {
       break;
     }
